@@ -344,6 +344,8 @@ def extract_wfs_cbin(
     if "car" in preprocess_steps and "kfilt" in preprocess_steps:
         raise ValueError("Must choose car or kfilt spatial filter")
 
+    # workers re-open the file by path: make it independent of the working directory
+    bin_file = Path(bin_file).absolute()
     sr = spikeglx.Reader(bin_file, **reader_kwargs)
     if h is None:
         h = sr.geometry
